@@ -122,6 +122,30 @@ def run(chk):
         if bad:
             chk.violation('hash', 'hash:%r' % ((sid, secret.hex(), key.hex()),), {'case': {'server_id': sid, 'secret': secret.hex(), 'key': key.hex()}, 'expected': oracle, 'observed': got},
                           'generate_verification_hash(%r, ...) %s' % (sid, bad))
+    # the same through the wire: an encryption request with that server id and key is decoded by the real packet class, and the
+    # hash is made from what the decoder returned - it must be the hash of the id and key the server SENT
+    import proto
+    from minecraft.networking.packets import clientbound as cb, PacketBuffer
+    from minecraft.networking.connection import ConnectionContext
+    ctx = ConnectionContext(protocol_version=757)
+    wired = [c for c in cases if len(c[0]) < 200][:80] + [('\ufeffsrv', b'k' * 16, b'\x30\x03abc'), ('\ufeff', b'k' * 16, b''), ('\ufeff-', b'k' * 16, b'\x01'),
+                                                          ('srv\ufeff', b'k' * 16, b'\x02'), (' srv ', b'k' * 16, b'\x03'), ('\u200bsrv', b'k' * 16, b''), ('-\n', b'k' * 16, b'')]
+    for sid, secret, key in wired:
+        body = proto.string(sid) + proto.varint(len(key)) + key + proto.varint(4) + b'tokn'
+        pb = PacketBuffer()
+        pb.send(body)
+        pb.reset_cursor()
+        pk = cb.login.EncryptionRequestPacket(context=ctx)
+        chk.count('hash-from-wire', [sid, key.hex()[:40]], True)
+        try:
+            pk.read(pb)
+            got = encryption.generate_verification_hash(pk.server_id, secret, pk.public_key)
+        except Exception as e:
+            got = 'raised ' + exn_name(e)
+        oracle = java_hex(hashlib.sha1(sid.encode('utf-8') + secret + key).digest())
+        if got != oracle:
+            chk.violation('hash-from-wire', 'wire:%r' % (sid,), {'case': {'server_id': sid, 'server_id_utf8': sid.encode('utf-8').hex(), 'secret': secret.hex(), 'key': key.hex()[:200]}, 'expected': oracle, 'observed': got},
+                          'encryption request with server id %r decoded by the real packet class: the hash made from the decoded fields is %s; the hash of what the server sent is %s' % (sid, got, oracle))
     chk.sample('hash', {'server_id': 'Notch', 'hash': encryption.generate_verification_hash('Notch', b'', b'')}, k=1)
     # arbitrary digests through the formatting function
     digs = [bytes([0] * 20), bytes([0xff] * 20), bytes([0x80] + [0] * 19), bytes([0x7f] + [0xff] * 19), bytes([0] * 19 + [1]),
